@@ -190,7 +190,11 @@ func TestVerifC04(t *testing.T) {
 	for _, ev := range []string{"member_dead", "member_stopped", "member_ioerr"} {
 		for _, mf := range []bool{false, true} {
 			pinned = append(pinned, base{4, []string{"member_ok", ev, "joiner_ok"}, 1, mf, false})
-			pinned = append(pinned, base{4, []string{"member_ok", ev, "joiner_lag_progress"}, 1, mf, false})
+			if ev == "member_dead" {
+				for _, hl := range []string{"joiner_heals2", "joiner_heals3", "joiner_heals4", "joiner_heals5"} {
+					pinned = append(pinned, base{4, []string{"member_ok", "member_dies1", hl}, 1, mf, false})
+				}
+			}
 			pinned = append(pinned, base{3, []string{ev, "joiner_ok"}, 1, mf, false})
 		}
 	}
@@ -227,7 +231,9 @@ func TestVerifC04(t *testing.T) {
 			return vScenario{ID: id, Hosts: hosts, Cascade: cascade, Master: "h1", Manager: mgr, W: b.w, Base: 3, Req: reqSpec{Kind: "none"},
 				Policy: "flow", Rounds: 9, Cfg: map[string]any{"master_first": b.mf, "semi_sync_enable_lag": 5000, "inactivation_delay": 3, "failover": false}}
 		}
+		var late []string
 		setup := func(s *vSim) {
+			late = nil
 			// members = classes starting with member_/marked_; the published list and the
 			// semi-sync settings describe the situation BEFORE the change
 			var list []string
@@ -253,6 +259,9 @@ func TestVerifC04(t *testing.T) {
 					x.IOErrno = 13114
 				case "joiner_lag_progress", "joiner_lag_stalled":
 					x.ExtraDataLag = 9000
+				case "joiner_heals0", "joiner_heals1", "joiner_heals2", "joiner_heals3", "joiner_heals4", "joiner_heals5", "joiner_heals6":
+					// cut off the network until round 3 / 4: it can join exactly when a dead member is due for eviction
+					late = append(late, h)
 				}
 			}
 			m := s.W.Hosts["h1"]
@@ -264,6 +273,11 @@ func TestVerifC04(t *testing.T) {
 			if req > 0 {
 				m.Wsc = req
 			}
+			s.W.Unlock()
+			for _, h := range late {
+				s.W.SetNet(h, "isolated")
+			}
+			s.W.Lock()
 			s.W.Unlock()
 			sort.Strings(list)
 			bb, _ := json.Marshal(list)
@@ -314,6 +328,16 @@ func TestVerifC04(t *testing.T) {
 					}
 				},
 				perRound: func(s *vSim, round int) bool {
+					for i, c := range b.cls {
+						if c == "member_dies1" && round == 1 {
+							// a member dies while the manager runs: its eviction falls due three seconds later
+							s.W.Crash(fmt.Sprintf("h%d", i+2))
+							s.kill(fmt.Sprintf("h%d", i+2))
+						}
+						if strings.HasPrefix(c, "joiner_heals") && c == fmt.Sprintf("joiner_heals%d", round) {
+							s.W.SetNet(fmt.Sprintf("h%d", i+2), "ok")
+						}
+					}
 					s.W.Lock()
 					for i, c := range b.cls {
 						if c == "joiner_lag_progress" {
@@ -368,7 +392,7 @@ func TestVerifC04(t *testing.T) {
 		// census): the eviction guard must then refuse to shrink the list
 		evicts, joins := false, false
 		for _, c := range b.cls {
-			evicts = evicts || c == "member_dead" || c == "member_stopped" || c == "member_ioerr" || c == "member_diverged"
+			evicts = evicts || c == "member_dead" || c == "member_dies1" || c == "member_stopped" || c == "member_ioerr" || c == "member_diverged"
 			joins = joins || c == "joiner_ok" || c == "joiner_lag_progress"
 		}
 		if evicts {
